@@ -266,6 +266,23 @@ CLAIMS = {
         note=PYVC_TRUST + "; POSIX lockf (per-process) and asyncio.Lock contracts assumed; lexical enclosure in "
              "`async with` decides the call-site obligations (backend ast-dominance); level other because the "
              "history statement is composed by hand"),
+    "C17": dict(
+        engine="pyvc", category="other", design_ref="DESIGN.md section 4 C17",
+        technique="contract-based deductive verification: the real source of Terminal._eeprom_read_one, read_eeprom "
+                  "(nested get_data), parse_sync_managers and parse_pdos against the register-level contract of the "
+                  "ESC's EEPROM interface (ghost image, loop invariants over busy polls, refills and sync-manager "
+                  "entries), z3; parse_pdos and the number of categories by bounded unrolling (labelled bounded)",
+        text="For any image, 4- or 8-byte interface and any number of busy polls, _eeprom_read_one returns the eight "
+             "bytes stored at the address (loop invariants). read_eeprom returns the identity fields and every "
+             "category up to the end marker, keyed by type, exactly as stored: category lengths and contents are "
+             "unbounded (invariant of get_data: the unconsumed bytes are the image between cursor and read "
+             "position), the number of categories is bounded (0-2 quick, 0-3 thorough). parse_sync_managers gives "
+             "each mailbox and process-data area the offset, size and register address of the last entry of its "
+             "kind, for any number of entries (loop invariant with a ghost entry). parse_pdos (EEPROM source) gives "
+             "every mapped entry its byte offset and bit position or format and returns the bit totals - bounded: "
+             "categories of up to 3 (thorough 4) eight-byte slots. The SDO source of parse_pdos is not covered.",
+        note=PYVC_TRUST + "; EEPROM interface contract written from ETG.1000.4; parse_pdos over the SDO source "
+             "(sdo_read_format) and EBPFTerminal.apply_eeprom's size rounding are not under contract"),
     "C16": dict(
         engine="pyvc", category="other", design_ref="DESIGN.md section 4 C16",
         technique="contract-based deductive verification: the real source of Terminal.sdo_read / sdo_write against "
